@@ -64,6 +64,8 @@ func replayOps(s *coreSim, ops []string) {
 			s.NoDelay(e, ai(3), ai(4), ai(5), ai(6))
 		case "wnd":
 			s.WndSize(e, ai(3), ai(4))
+		case "tx":
+			s.SetTx(e, uint32(ai(3)))
 		}
 	}
 }
